@@ -133,7 +133,7 @@ def make_history(base, cfg, r, n_commits=None, kind=None):
     stale_generation = False
     for k in range(n_commits):
         op = kind
-        if kind in ("plain", "checkpoint_restart", "passive_checkpoint", "grow_shrink"):
+        if kind in ("plain", "checkpoint_restart", "passive_checkpoint", "grow_shrink", "fresh_wal"):
             op = r.choice(["insert", "update", "delete", "mixed"])
         con.execute("BEGIN")
         ids = [x[0] for x in con.execute("SELECT rowid FROM t0")]
